@@ -22,6 +22,7 @@ import (
 	"os"
 	"sort"
 	"strings"
+	"sync"
 	"testing"
 	"time"
 
@@ -89,11 +90,13 @@ func c05Body(sc c05Scenario, obs *c05Obs) func() {
 	// not control. Nothing of the set-up is still running when the controlled part starts.
 	var h *Head
 	var runTxn func(tx c05Txn)
+	// obsMu protects the harness' own observation state (needed only in the free-running race
+	// pass; under the controlled scheduler it is never contended and never held at a scheduling point)
+	var obsMu sync.Mutex
 	clock := 0
-	tick := func() int { clock++; return clock }
+	tick := func() int { obsMu.Lock(); defer obsMu.Unlock(); clock++; return clock }
 	ctx := context.Background()
 	{
-		tick := func() int { clock++; return clock }
 		dir, err := os.MkdirTemp("", "c05")
 		if err != nil {
 			panic(err)
@@ -119,19 +122,27 @@ func c05Body(sc c05Scenario, obs *c05Obs) func() {
 			app := h.Appender(ctx)
 			for _, sk := range tx.Series {
 				if _, err := app.Append(0, c05Series[sk], tx.T, tx.V); err != nil {
+					obsMu.Lock()
 					obs.appendErr[tx.Name+"/"+sk] = err.Error()
+					obsMu.Unlock()
 				}
 			}
-			obs.commitCall[tx.Name] = tick()
+			tc := tick()
+			obsMu.Lock()
+			obs.commitCall[tx.Name] = tc
+			obsMu.Unlock()
 			if tx.Rollback {
 				err = app.Rollback()
 			} else {
 				err = app.Commit()
 			}
+			tr := tick()
+			obsMu.Lock()
 			if err != nil {
 				obs.appendErr[tx.Name+"/commit"] = err.Error()
 			}
-			obs.commitRet[tx.Name] = tick()
+			obs.commitRet[tx.Name] = tr
+			obsMu.Unlock()
 		}
 		for _, tx := range sc.Pre {
 			runTxn(tx)
